@@ -253,3 +253,28 @@ Qed.
 (* an absolute entry is not accepted by the resolver model (it would not survive a move) *)
 Example ex_abs : ldso_dir [STR "b"] (STR "/abs/lib") = None.
 Proof. vm_compute. reflexivity. Qed.
+
+From BFG Require Import Path.PathAlg Path.PathAlgProofs Path.PathAlgMk Path.PathAlgRt Path.PathAlgWf Path.PathAlgOps Path.SymlinkGlue.
+From Coq Require Import List. Import ListNotations.
+
+(* ---- the link target of a symbolic-link copy (tools/copy_file.py Symlink.transform_input, Path/SymlinkGlue.v) ----
+   What `ln -sf` is handed for a generated file linked elsewhere in the build tree is the input's path relative to the
+   directory OF THE LINK; read from that directory it names the input again, for all directory names (data -> data2,
+   lib -> lib64 included).  The guard is the one of C12_relpath_append (finding C12-relpath-drive-like). *)
+Theorem C14_symlink_target_resolves : forall input output,
+  wfp input -> wfp output -> p_root input = p_root output -> root_eqb (p_root input) Absolute = false ->
+  p_destdir input = p_destdir output ->
+  is_nil (suffix_str output) = false -> nodrive [last (p_comps output) []] ->
+  (common_len (removelast (p_comps output)) (p_comps input) = length (removelast (p_comps output)) ->
+   nodrive (skipn (common_len (removelast (p_comps output)) (p_comps input)) (p_comps input))) ->
+  exists d s r, parent output = Some d /\ symlink_target Posix input output = Some s /\
+                append d s = Some r /\ path_eqb r input = true.
+Proof. exact symlink_target_resolves. Qed.
+Print Assumptions C14_symlink_target_resolves.
+
+(* non-vacuity, on the near-prefix pair: data2/two.txt linked as data/two.txt gets the target ../data2/two.txt *)
+Example C14_symlink_target_ex : exists i o,
+  mk (STR "data2/two.txt") (RRoot Builddir) None None = Some i /\
+  mk (STR "data/two.txt") (RRoot Builddir) None None = Some o /\
+  symlink_target Posix i o = Some (STR "../data2/two.txt").
+Proof. do 2 eexists. vm_compute. repeat split. Qed.
